@@ -65,6 +65,10 @@ def group_runs(g, tier):
     if g == 'ovl':
         runs = [
             W('ovl(mem,mem)', 'edges', frac=0.05 if q else 1.0, split=True),
+            # the non-transfer operations (a quarter of the edges; transfers dominate a uniform sample) on states whose
+            # entries all live in lower layers: wrong-typed parents and targets served from below
+            W('ovl(mem,mem)', 'edges', frac=0.12 if q else 1.0, split=True, lower_only=True, ops='create_dir,create_file,append_file,remove_file,remove_dir,create_dir_all,remove_dir_all,set_time'),
+            W('ovl(mem,mem,mem)', 'edges', lts='deep', frac=0.12 if q else 1.0, split=True, lower_only=True, ops='create_dir,create_file,append_file,remove_file,remove_dir,create_dir_all,remove_dir_all'),
             W('ovl(mem,mem)', 'random', walks=30 if q else 2000, length=40, split=True),
             W('ovl(mem)', 'random', walks=8 if q else 300, length=40),
             W('ovl(mem,mem,mem)', 'random', walks=15 if q else 1000, length=40, split=True),
@@ -454,7 +458,7 @@ PROPS = {
     'C13': dict(groups=['tree', 'alt', 'ovl', 'join', 'handles', 'hostile', 'hostiledir', 'emb', 'async']),
     'C07': dict(groups=['alt', 'hostile', 'hostiledir']),
     'C08': dict(groups=['ovl', 'times', 'faults']),
-    'C09': dict(groups=['ovl']),
+    'C09': dict(groups=['ovl', 'ovl_cycles']),
     'C06': dict(groups=['join']),
     'C15': dict(groups=['async', 'join', 'afaults']),
     'C19': dict(groups=['times', 'handles', 'tree', 'alt', 'ovl']),
